@@ -13,6 +13,7 @@ package main
 //     (isOriginator) and whatever the failure reason;
 //   - countPending (the value canClose compares with 0), decrementPending, and the increment of
 //     canHandleNewCall.
+//
 // Proofs/IdleRelayP.v proves them equal to the steps of the relay model of C09
 // (Model/RelayItems.v: IEntomb / IDelete / IGetDest / IRemoteCan push IDec exactly then), whose
 // invariant C09_pending_exact then gives: no live item and no held unit => countPending = 0 =>
@@ -58,7 +59,7 @@ func init() {
 		{Func: "Relayer.decrementPending", Out: "sweepRelayDecrement", File: "GenIdleRelay", Soft: true,
 			Params: "(pending : Z)", Ret: "Z", VoidRet: "(pending + checked)",
 			SHints: map[string]string{
-				"r.pending.Dec()":          "let pending := pending - 1 in",
+				"r.pending.Dec()":         "let pending := pending - 1 in",
 				"r.conn.checkExchanges()": "let checked := 0 in",
 			}},
 		{Func: "Relayer.canHandleNewCall", Out: "sweepRelayAdmitPending", File: "GenIdleRelay", Soft: true,
